@@ -33,48 +33,95 @@ class C18(InterpProp):
         return gen.Knobs(contracts=self.with_contracts, p_history=0.6, sends=0.4, nested_targets=0.5,
                          max_states=rnd.choice([6, 10, 14]), history_focus=0.6)
 
+    BOX = ("\n(event.box.append(1) if getattr(event, 'box', None) is not None else None)"
+           "\ny = y + (len(event.box) if getattr(event, 'box', None) is not None else 0)")
+
     def gen_case(self, rnd, tier):
         kn = self.knobs(rnd, tier)
         g = gen.ChartGen(rnd, kn)
         sc = g.build()
-        enc = ChartEnc(sc)
         ops1 = gen.gen_ops(rnd, kn, self.n_ops)
+        box = rnd.random() < 0.25
+        if box:
+            # events carrying a mutable parameter that action code changes in place; delayed, so that they are
+            # still pending when the snapshot is taken (outside the modelled Python subset: implementation only)
+            for t in sc.transitions:
+                if t.event is not None and rnd.random() < 0.6:
+                    t.action = (t.action or 'pass') + self.BOX
+            for op in ops1:
+                if op[0] == 'queue' and rnd.random() < 0.7:
+                    op[2]['data'] = [kv for kv in op[2]['data'] if kv[0] != 'delay'] + \
+                        [['box', {'list': [0]}], ['delay', rnd.randint(1, 3)]]
+        enc = ChartEnc(sc)
         ops = [['create', 0, False, [], 0], ['create', 0, False, [], 0]]
+        groups = []
+        subjects = [0]          # slots holding the interpreter under test and the copies that go on beside it
+        side_by_side = box or rnd.random() < 0.2
         p_snap = 1.0 if tier == 'thorough' and rnd.random() < 0.3 else rnd.choice([0.1, 0.25, 0.5])
         for op in ops1:
             if op[0] == 'exec' and rnd.random() < p_snap:
-                ops.append(['snapshot', 0, rnd.choice(['pickle', 'deepcopy', 'pickle-keep', 'deepcopy-keep'])])
+                how = rnd.choice(['pickle', 'deepcopy', 'pickle-keep', 'deepcopy-keep', 'deepcopy-both', 'pickle-both'])
+                if how.endswith('-both') and (len(subjects) >= 3 or not side_by_side):
+                    how = how.replace('-both', '')
+                ops.append(['snapshot', subjects[-1], how])
                 ops.append(['snapshot', 1, 'none'])
-            ops.append(op)
-            op2 = list(op)
-            op2[1] = 1
-            ops.append(op2)
-        payload = {'kind': 'interp', 'charts': [enc.json], 'ops': ops}
-        return Case(payload, {'charts': [sc]}, model_ok=enc.supported)
+                groups.append([len(ops) - 2, len(ops) - 1])
+                if how.endswith('-both'):
+                    subjects.insert(0, 1 + len(subjects))     # the copy gets the next slot and runs first
+            grp = []
+            for sl in subjects + [1]:
+                op2 = list(op)
+                op2[1] = sl
+                ops.append(op2)
+                grp.append(len(ops) - 1)
+            groups.append(grp)
+        payload = {'kind': 'interp', 'charts': [enc.json], 'ops': ops, 'groups': groups}
+        return Case(payload, {'charts': [sc]}, model_ok=enc.supported and len(subjects) == 1 and not box)
 
     def shrink_candidates(self, case):
         p = case.payload
-        ops = p['ops']
-        for i in range(len(ops) - 2, 1, -2):
+        groups = p.get('groups')
+        if not groups:
+            return
+        # drop one group of ops (never a snapshot that created a slot: later slot numbers depend on it)
+        for gi in range(len(groups) - 1, -1, -1):
+            g = groups[gi]
+            if p['ops'][g[0]][0] == 'snapshot' and p['ops'][g[0]][2].endswith('-both'):
+                continue
             q = copy.deepcopy(p)
-            del q['ops'][i:i + 2]
+            drop = set(g)
+            keep = [i for i in range(len(q['ops'])) if i not in drop]
+            remap = {old: new for new, old in enumerate(keep)}
+            q['ops'] = [q['ops'][i] for i in keep]
+            q['groups'] = [[remap[i] for i in gg] for j, gg in enumerate(groups) if j != gi]
             yield q
 
     def oracle(self, case, obs, res):
         ops = case.payload['ops']
+        groups = case.payload.get('groups') or [[k, k + 1] for k in range(2, len(ops) - 1, 2)]
         snapped = False
-        for k in range(2, len(ops) - 1, 2):
-            a, b = obs['obs'][k], obs['obs'][k + 1]
+        for g in groups:
+            k = g[0]
+            ref = obs['obs'][g[-1]]
+            a = obs['obs'][k]
             if ops[k][0] == 'snapshot':
                 snapped = True
                 res.features.add('snap:' + ops[k][2])
-            d = engine.diff(a['r'], b['r'])
-            if d is None:
-                d = engine.diff(b['world']['slots'][0], b['world']['slots'][1])
-            if d:
-                res.violations.append('op %d %s: the %s interpreter differs from the untouched one: %s'
-                                      % (k, ops[k][0], 'copied' if snapped else 'not yet copied', d))
+                continue
+            bad = None
+            for j in g[:-1]:
+                d = engine.diff(obs['obs'][j]['r'], ref['r'])
+                if d is None:
+                    d = engine.diff(ref['world']['slots'][ops[j][1]], ref['world']['slots'][1])
+                if d:
+                    bad = (j, d)
+                    break
+            if bad:
+                res.violations.append('op %d %s (interpreter %d): the %s interpreter differs from the untouched one: %s'
+                                      % (bad[0], ops[k][0], ops[bad[0]][1], 'copied' if snapped else 'not yet copied', bad[1]))
                 break
+            if len(g) > 2:
+                res.features.add('original-and-copy-side-by-side')
             r = a['r']
             if snapped and isinstance(r, dict) and 'eff' in r:
                 sc = case.aux['run_charts'][0]
